@@ -256,12 +256,16 @@ func fieldTagToFieldInfo(str string, name string) (*fieldInfo, error) {
 	}
 	if info != nil {
 		info.name = name
-		if info.selector == "" {
+		if info.selector == "" || info.countSet {
+			// A size given on a select(Enum) destination applies to the pointed-to value: same limits.
 			if info.count < 1 {
 				return nil, structuralError{name, "field of unknown size in " + str}
 			} else if info.count > 8 {
 				return nil, structuralError{name, "specified size too large in " + str}
-			} else if info.minlen > info.maxlen {
+			}
+		}
+		if info.selector == "" {
+			if info.minlen > info.maxlen {
 				return nil, structuralError{name, "specified length range inverted in " + str}
 			} else if info.val > 0 {
 				return nil, structuralError{name, "specified selector value but not field in " + str}
